@@ -78,24 +78,15 @@ def buildManipulator (env : Env) (m? : Option ManipOpt) (src dst : ParamVar) (ar
     | some (_, i) => err s!"manipulator function {fname} {ordinalNumber (i + 3)} arg type mismatch"
     | none => mk true
 
-/-- `createVar`; `.panic` = `TypeName`/`IsExternal` on a named type without package -/
-def createVar (env : Env) (v : ParamVar) (defName : String) : Outcome Var :=
-  let name := if v.name == "" then defName else v.name
-  let isPtr := env.isPtr v.ty
+/-- `createVar` -/
+def createVar (env : Env) (v : ParamVar) (defName : String) : Var :=
   let typ := env.derefPtr v.ty
-  match env.typeNameF typ, env.isExternal typ with
-  | some tn, some ext => .ok { name := name, typ := tn, pointer := isPtr, external := ext }
-  | _, _ => .panic "createVar: nil package"
+  { name := if v.name == "" then defName else v.name, typ := env.typeNameF typ, pointer := env.isPtr v.ty,
+    external := env.isExternal typ }
 
-def createArgVars (env : Env) : Nat → List ParamVar → Outcome (List Var)
-  | _, [] => .ok []
-  | i, a :: rest =>
-    match createVar env a s!"arg{i}", createArgVars env (i + 1) rest with
-    | .ok v, .ok vs => .ok (v :: vs)
-    | .panic s, _ => .panic s
-    | .error e, _ => .error e
-    | _, .panic s => .panic s
-    | _, .error e => .error e
+def createArgVars (env : Env) : Nat → List ParamVar → List Var
+  | _, [] => []
+  | i, a :: rest => createVar env a s!"arg{i}" :: createArgVars env (i + 1) rest
 
 /-- result of building one function: the generator input, the structured body, its warnings -/
 structure Built where
@@ -124,9 +115,9 @@ def createFunction (env : Env) (eng : Engine) (m : MethodEntry) : Outcome Built 
       err dst.pos s!"dst type should be a struct but {(env.ty dst.ty).underStr}" else
     let srcDef := if m.opts.reverse then "dst" else "src"
     let dstDef := if m.opts.reverse then "src" else "dst"
-    let srcVar ← createVar env src srcDef
-    let dstVar ← createVar env dst dstDef
-    let argVars ← createArgVars env 0 additional
+    let srcVar := createVar env src srcDef
+    let dstVar := createVar env dst dstDef
+    let argVars := createArgVars env 0 additional
     if m.opts.receiver != "" && srcVar.external then
       err m.decl.pos "an external package type cannot be a receiver" else
     let srcVar := if m.opts.receiver != "" then { srcVar with name := m.opts.receiver } else srcVar
